@@ -27,7 +27,18 @@ pub const KINDS: [ErrorKind; 10] = [
 ];
 
 /// Judge the sender side. Returns Err((key, msg)).
-pub fn judge_send(name: &str, msgs: &Msgs, rep: &SendReport, data: &[u8], what: &str) -> Result<(), (String, String)> {
+pub fn judge_send(name: &str, msgs: &Msgs, rep: &SendReport, data: &[u8], log: &[Event], what: &str) -> Result<(), (String, String)> {
+    // a send during which the pipe's flush failed must not report success
+    let mut from = 0usize;
+    for (i, r) in rep.results.iter().enumerate() {
+        let to = rep.log_lens.get(i).copied().unwrap_or(log.len()).min(log.len());
+        if let Some(Event::FlushErr(k)) = log[from.min(to)..to].iter().find(|e| matches!(e, Event::FlushErr(_))) {
+            if *r == SendRes::Sent {
+                return Err(("flush-error-swallowed".into(), format!("{}: send #{} reports success although the pipe's flush failed with {:?} during it {}", name, i, k, what)));
+            }
+        }
+        from = to;
+    }
     let mut cursor = 0usize;
     let mut dead = false; // a partial message is in the stream: nothing may follow
     for (i, r) in rep.results.iter().enumerate() {
@@ -148,15 +159,26 @@ fn fixed_msgs(ty: &Ty, which: usize) -> Msgs {
     gen_msgs(ty, &mut Tape::new(tapes[which % 3]), 3, 200)
 }
 
-fn run_send(sh: &dyn DynShape, asynchronous: bool, msgs: &Msgs, max_len: usize, script: Vec<WOut>, tail: WOut, flush_err: bool, budget: usize) -> Result<(SendReport, Vec<u8>, usize), String> {
+#[derive(Default, Clone, Debug)]
+pub struct FlushFaults {
+    /// k-th flush call answers Pending first
+    pub pending: Vec<bool>,
+    /// k-th answered flush call fails with this kind
+    pub errs: Vec<Option<ErrorKind>>,
+    pub tail: Option<ErrorKind>,
+}
+
+fn run_send(sh: &dyn DynShape, asynchronous: bool, msgs: &Msgs, max_len: usize, script: Vec<WOut>, tail: WOut, flush: &FlushFaults, budget: usize) -> Result<(SendReport, Vec<u8>, usize, Vec<Event>), String> {
     let mut sink = ScriptSink::new(script, tail, budget);
-    let _ = flush_err;
+    sink.flush_script = flush.pending.clone();
+    sink.flush_errs = flush.errs.clone();
+    sink.flush_err_tail = flush.tail;
     let rep = if asynchronous {
         lib(|| sh.io_async_send(&msgs.values, &[], max_len, &mut sink, 4 * budget + 64, true))?
     } else {
         lib(|| sh.io_send_blocking(&msgs.values, &[], max_len, &mut sink, true))?
     };
-    Ok((rep, sink.data.clone(), sink.calls))
+    Ok((rep, sink.data.clone(), sink.calls, sink.log.clone()))
 }
 
 fn run_recv(sh: &dyn DynShape, asynchronous: bool, data: Vec<u8>, max_len: usize, nmsgs: usize, script: Vec<ROut>, tail: ROut, budget: usize, retries: usize) -> Result<(Vec<RecvRes>, bool), String> {
@@ -177,8 +199,8 @@ impl Property for C09 {
         "fault_enumeration"
     }
     fn rule(&self) -> String {
-        "fault enumeration: (1) exhaustively, for fixed 2-3-message streams of several message shapes: EVERY single-fault script = each pipe call index of the fault-free run x each outcome (write: Zero, Accept(1), Err(kind) for 10 io::ErrorKinds; read: Err(kind), Eof) x {one-shot, persistent from that call on} x {blocking, async}; (2) random multi-fault scripts from the tape (fault positions drawn from interesting stream cuts including message boundaries); \
-         oracle: every send/recv returns within a call budget of 2*bytes + script length + 8 pipe calls (the scripted pipe counts calls; an overrun is the deterministic 'retries forever' verdict); per send the bytes appended to the sink are a prefix of that message's encoding, a send reporting Ok appended the whole message, and once a message was written only partially nothing is ever appended again (later attempts may fail or hit the documented poisoned assertion); after transient read errors retrying recv yields all messages in order exactly once and then Closed; Eof mid-message yields Closed after the whole messages before it; no parse error on a well-formed stream; \
+        "fault enumeration: (1) exhaustively, for fixed 2-3-message streams of several message shapes: EVERY single-fault script = each pipe call index of the fault-free run x each outcome (write: Zero, Accept(1), Err(kind) for 10 io::ErrorKinds; read: Err(kind), Eof; async flush: Err(kind) at the flush of each send, optionally after a Pending) x {one-shot, persistent from that call on} x {blocking, async}; (2) random multi-fault scripts from the tape (fault positions drawn from interesting stream cuts including message boundaries); \
+         oracle: every send/recv returns within a call budget of 2*bytes + script length + 8 pipe calls (the scripted pipe counts calls; an overrun is the deterministic 'retries forever' verdict); per send the bytes appended to the sink are a prefix of that message's encoding, a send reporting Ok appended the whole message and no flush of the pipe failed during it, and once a message was written only partially nothing is ever appended again (later attempts may fail or hit the documented poisoned assertion); after transient read errors retrying recv yields all messages in order exactly once and then Closed; Eof mid-message yields Closed after the whole messages before it; no parse error on a well-formed stream; \
          non-trivial = a fault at a message boundary or strictly inside a message followed by at least one further pipe call; distinct by (shape, messages, script, variant)"
             .into()
     }
@@ -228,7 +250,7 @@ impl Property for C09 {
                         }
                         let base_script: Vec<WOut> = if chunk == usize::MAX { vec![] } else { (0..total).map(|_| WOut::Accept(chunk)).collect() };
                         let budget = 2 * total + base_script.len() + 8;
-                        let (_, _, base_calls) = match run_send(sh, asynchronous, &msgs, max_len, base_script.clone(), WOut::Accept(chunk), false, budget) {
+                        let (_, _, base_calls, _) = match run_send(sh, asynchronous, &msgs, max_len, base_script.clone(), WOut::Accept(chunk), &FlushFaults::default(), budget) {
                             Ok(x) => x,
                             Err(p) => crate::vfail!("panic", "{}: fault-free {} send panicked: {}", name, variant, p),
                         };
@@ -250,18 +272,63 @@ impl Property for C09 {
                                     let tail = if persistent { o.clone() } else { WOut::Accept(chunk) };
                                     let what = format!("[{} sender, messages {:?}, chunk {}, fault {:?} at pipe call {}{}{}]", variant, msgs.values.iter().map(|v| v.show()).collect::<Vec<_>>(), chunk as isize, o, call, if persistent { " (persistent)" } else { "" }, if pending_before { ", preceded by a Pending" } else { "" });
                                     st.eval(1);
-                                    let (rep, data, _) = match run_send(sh, asynchronous, &msgs, max_len, script, tail, false, budget) {
+                                    let (rep, data, _, log) = match run_send(sh, asynchronous, &msgs, max_len, script, tail, &FlushFaults::default(), budget) {
                                         Ok(x) => x,
                                         Err(p) => crate::vfail!("panic", "{}: {} {}", name, p, what),
                                     };
                                     if rep.stalled {
                                         crate::vfail!("stalled", "{}: a send future stopped making progress {}", name, what);
                                     }
-                                    if let Err((k, m)) = judge_send(name, &msgs, &rep, &data, &what) {
+                                    if let Err((k, m)) = judge_send(name, &msgs, &rep, &data, &log, &what) {
                                         crate::vfail!(k, "{}", m);
                                     }
                                     st.nontrivial((name, which, variant, chunk, call, format!("{:?}", o), persistent, pending_before), || json!({"side": "write", "shape": name, "variant": variant, "fault": format!("{:?}", o), "call": call, "persistent": persistent, "pending_before_fault": pending_before, "results": format!("{:?}", rep.results)}));
                                   }
+                                }
+                            }
+                        }
+                    }
+                    // ---- writer: the pipe's flush fails (the async sender flushes once per message)
+                    if asynchronous {
+                        let n = msgs.values.len();
+                        let budget = 2 * total + 3 * n + 16;
+                        for j in 0..n {
+                            for kind in KINDS.iter() {
+                                for persistent in [false, true] {
+                                    for pending_before in [false, true] {
+                                        let mut ff = FlushFaults::default();
+                                        ff.errs = (0..j).map(|_| None).collect();
+                                        ff.errs.push(Some(*kind));
+                                        if persistent {
+                                            ff.tail = Some(*kind);
+                                        }
+                                        if pending_before {
+                                            ff.pending = (0..j).map(|_| false).collect();
+                                            ff.pending.push(true);
+                                        }
+                                        let what = format!("[async sender, messages {:?}, flush of send #{} fails with {:?}{}{}]", msgs.values.iter().map(|v| v.show()).collect::<Vec<_>>(), j, kind, if persistent { " (and every later flush)" } else { "" }, if pending_before { ", preceded by a Pending" } else { "" });
+                                        st.eval(1);
+                                        let (rep, data, _, log) = match run_send(sh, true, &msgs, max_len, vec![], WOut::Accept(usize::MAX), &ff, budget) {
+                                            Ok(x) => x,
+                                            Err(p) => crate::vfail!("panic", "{}: {} {}", name, p, what),
+                                        };
+                                        if rep.stalled {
+                                            crate::vfail!("stalled", "{}: a send future stopped making progress {}", name, what);
+                                        }
+                                        if let Err((k, m)) = judge_send(name, &msgs, &rep, &data, &log, &what) {
+                                            crate::vfail!(k, "{}", m);
+                                        }
+                                        if !log.iter().any(|e| matches!(e, Event::FlushErr(_))) {
+                                            crate::vfail!("harness-flush", "harness: the scripted flush fault was never reached {}", what);
+                                        }
+                                        // the sends before the fault, and after a one-shot fault, go through
+                                        for (i, r) in rep.results.iter().enumerate() {
+                                            if (i < j || (i > j && !persistent)) && *r != SendRes::Sent {
+                                                crate::vfail!("unaffected-send-fails", "{}: send #{} = {:?} although only the flush of send #{} fails {}", name, i, r, j, what);
+                                            }
+                                        }
+                                        st.nontrivial((name, which, "flush", j, format!("{:?}", kind), persistent, pending_before), || json!({"side": "flush", "shape": name, "send": j, "kind": format!("{:?}", kind), "persistent": persistent, "pending_before_fault": pending_before, "results": format!("{:?}", rep.results)}));
+                                    }
                                 }
                             }
                         }
@@ -369,18 +436,31 @@ impl Property for C09 {
                 1 => WOut::Zero,
                 _ => WOut::Accept(usize::MAX),
             };
-            let budget = 2 * total + script.len() + 8;
-            let what = format!("[{} sender, messages {:?}, script {:?}, then {:?}]", variant, msgs.values.iter().map(|v| v.show()).collect::<Vec<_>>(), script, tail);
+            // flush faults (async only: the blocking sender never flushes)
+            let mut ff = FlushFaults::default();
+            if asynchronous && t.chance(1, 3) {
+                let nf = msgs.values.len() + 2;
+                ff.errs = (0..nf).map(|_| if t.chance(1, 3) { Some(kind(&mut t)) } else { None }).collect();
+                ff.pending = (0..nf).map(|_| t.chance(1, 4)).collect();
+                if t.chance(1, 6) {
+                    ff.tail = Some(kind(&mut t));
+                }
+            }
+            let budget = 2 * total + script.len() + 3 * msgs.values.len() + 16;
+            let what = format!("[{} sender, messages {:?}, script {:?}, then {:?}, flush faults {:?}]", variant, msgs.values.iter().map(|v| v.show()).collect::<Vec<_>>(), script, tail, ff);
             st.eval(1);
-            let (rep, data, _) = match run_send(sh, asynchronous, &msgs, max_len, script.clone(), tail.clone(), false, budget) {
+            let (rep, data, _, log) = match run_send(sh, asynchronous, &msgs, max_len, script.clone(), tail.clone(), &ff, budget) {
                 Ok(x) => x,
                 Err(p) => crate::vfail!("panic", "{}: {} {}", name, p, what),
             };
             if rep.stalled {
                 crate::vfail!("stalled", "{}: a send future stopped making progress {}", name, what);
             }
-            if let Err((k, m)) = judge_send(&name, &msgs, &rep, &data, &what) {
+            if let Err((k, m)) = judge_send(&name, &msgs, &rep, &data, &log, &what) {
                 crate::vfail!(k, "{}", m);
+            }
+            if log.iter().any(|e| matches!(e, Event::FlushErr(_))) {
+                st.label("a flush failed");
             }
             if at_boundary_or_inside {
                 st.label("write faults");
